@@ -279,6 +279,7 @@ func (s snapshot) addClient(name string, c *http.Client) {
 	s[name+".Jar"] = ptr(c.Jar)
 	s[name+".Timeout"] = c.Timeout.String()
 	s[name+".CheckRedirect==nil"] = fmt.Sprint(c.CheckRedirect == nil)
+	s[name+".CheckRedirect"] = ptr(c.CheckRedirect)
 }
 
 func (s snapshot) addEndpoints(name string, eps *op.Endpoints) {
